@@ -1450,7 +1450,9 @@ def traverse(
           preorder_action = TraverseAction.STOP
           break
     elif isinstance(x, list):
-      for i, v in enumerate(x):
+      # NOTE: a symbolic list is iterated over its symbolic (not inferred)
+      # values, which are what the reported paths address.
+      for i, v in (x.sym_items() if isinstance(x, Symbolic) else enumerate(x)):
         if not traverse(
             v,
             preorder_visitor_fn,
